@@ -438,6 +438,10 @@ pub assume_specification<T, U, D, F>[Option::<T>::map_or_else](a: Option<T>, d: 
     ensures
         a is Some ==> f.ensures((a->0,), r),
         a is None ==> d.ensures((), r);
+pub assume_specification<T, F>[Option::<T>::or_else](a: Option<T>, f: F) -> (r: Option<T>)
+    where F: FnOnce() -> Option<T> + core::marker::Destruct, T: core::marker::Destruct,
+    requires a is None ==> f.requires(()),
+    ensures a is Some ==> r == a, a is None ==> f.ensures((), r);
 pub assume_specification<T, E, U, F>[Result::<T, E>::and_then](a: Result<T, E>, f: F) -> (r: Result<U, E>)
     where F: FnOnce(T) -> Result<U, E> + core::marker::Destruct,
     requires a is Ok ==> f.requires((a->Ok_0,)),
